@@ -52,10 +52,10 @@ def shard_equiv(args):
     acc = Acc()
     fronts = FRONTS_FOR[framing]
     k = 0
-    for single, units in ((True, (1,)), (False, (1, 2))):
+    for single, units in ((True, (1,)), (False, (1, 2)), (False, (1, 255))):
         for ign in (False, True):
             cfg = scenario.Cfg(single, units, False, ign)
-            for n in range(1, depth + 1):
+            for n in range(1, (depth if units != (1, 255) else min(depth, 2)) + 1):
                 for seq in itertools.product(TOK_A, repeat=n):
                     k += 1
                     if k % parts != part:
@@ -180,6 +180,23 @@ def shard_isolation(args):
             acc.violation('C17/%s/%s/%s/interleaved-chunks' % (front, framing, what), wit,
                           'replies %r and final store match no serial order of the requests'
                           % ([[x.hex() for _, x in g] for g in got],), front)
+    if dgram:
+        # several peers' datagrams arrive before the server runs: every reply goes back to the peer that asked
+        peers = [('10.0.0.%d' % (i + 1), 41000 + i) for i in range(3)]
+        reqs = [dict(kind='req', fc=3, address=1 + i, count=1) for i in range(3)]
+        for order in itertools.permutations(range(3)):
+            ctx, ref, real = scenario.build(cfg)
+            srv = servers.Server(front, framing, ctx)
+            out = srv.dgram_burst([(peers[i], scenario.frame(framing, 1, 0x50 + i, reqs[i])) for i in order])
+            srv.shutdown()
+            n += 1
+            acc.inc('transitions', 3)
+            acc.inc('evaluations')
+            want = sorted((peers[i], scenario.frame(framing, 1, 0x50 + i, ref.handle(1, reqs[i])[0])) for i in range(3))
+            if sorted((tuple(a) if a else a, w) for a, w in out) != want:
+                acc.violation('C17/%s/%s/reply-to-wrong-peer/burst' % (front, framing),
+                              dict(part='burst', front=front, framing=framing, order=list(order)),
+                              'burst of three datagrams: replies %r' % ([(a, w.hex()) for a, w in out],), front)
     acc.inc('states', n)
     acc.add('nontrivial', ('isolation', front, framing))
     if not acc.samples:
@@ -332,6 +349,10 @@ def replay(w):
         a = run_history(w['fronts'][0], w['framing'], cfg, tuple(w['seq']))
         b = run_history(w['fronts'][1], w['framing'], cfg, tuple(w['seq']))
         return a != b, '%s: %r\n%s: %r' % (w['fronts'][0], [[x.hex() for x in o] for o in a[0]], w['fronts'][1], [[x.hex() for x in o] for o in b[0]])
+    if w['part'] in ('isolation', 'burst'):
+        a2 = shard_isolation((w['front'], w['framing'], 2))
+        vs = [v for v in a2.violations if v['witness'] == w]
+        return bool(vs), '\n'.join(v['msg'] for v in vs) or 'no violation'
     if w['part'] == 'isolation':
         shard_isolation((w['front'], w['framing'], w['nconn']))
         a2 = shard_isolation((w['front'], w['framing'], w['nconn']))
